@@ -4,6 +4,7 @@ import (
 	"context"
 	"fmt"
 	"reflect"
+	"sort"
 
 	"github.com/arr-ai/arrai/pkg/fu"
 
@@ -80,7 +81,7 @@ func (u UnionSet) Enumerator() ValueEnumerator {
 }
 
 type unionSetOrderedEnumerator struct {
-	set     frozen.Iterator[any]
+	subsets []Set
 	current ValueEnumerator
 }
 
@@ -88,10 +89,11 @@ func (e *unionSetOrderedEnumerator) MoveNext() bool {
 	if e.current != nil && e.current.MoveNext() {
 		return true
 	}
-	if !e.set.Next() {
+	if len(e.subsets) == 0 {
 		return false
 	}
-	e.current = e.set.Value().(Set).ArrayEnumerator()
+	e.current = e.subsets[0].ArrayEnumerator()
+	e.subsets = e.subsets[1:]
 	return e.current.MoveNext()
 }
 
@@ -100,14 +102,9 @@ func (e *unionSetOrderedEnumerator) Current() Value {
 }
 
 func (u UnionSet) ArrayEnumerator() ValueEnumerator {
-	return &unionSetOrderedEnumerator{
-		// ordered by rel.Set because the bucket keys are strings
-		// which wouldn't provide the correct sorting based on type.
-		set: u.m.Values().OrderedRange(
-			func(a, b interface{}) bool { return a.(Set).Less(b.(Set)) },
-		),
-		current: nil,
-	}
+	// ordered by rel.Set because the bucket keys are strings
+	// which wouldn't provide the correct sorting based on type.
+	return &unionSetOrderedEnumerator{subsets: u.orderedSubsets()}
 }
 
 func (u UnionSet) With(v Value) Set {
@@ -195,27 +192,33 @@ func (u UnionSet) Less(v Value) bool {
 		return u.Kind() < v.Kind()
 	}
 	x := v.(UnionSet)
-	less := func(a, b interface{}) bool {
-		return a.(Set).Less(b.(Set))
-	}
-	a := u.m.Values().OrderedRange(less)
-	b := x.m.Values().OrderedRange(less)
-	for {
-		aHasMore, bHasMore := a.Next(), b.Next()
+	a, b := u.orderedSubsets(), x.orderedSubsets()
+	for i := 0; ; i++ {
 		switch {
-		case !aHasMore:
-			return bHasMore
-		case !bHasMore:
+		case i == len(a):
+			return i < len(b)
+		case i == len(b):
 			return false
 		}
-		aSubset, bSubset := a.Value().(Set), b.Value().(Set)
-		if aSubset.Less(bSubset) {
+		if a[i].Less(b[i]) {
 			return true
 		}
-		if bSubset.Less(aSubset) {
+		if b[i].Less(a[i]) {
 			return false
 		}
 	}
+}
+
+// orderedSubsets returns the bucket subsets ordered by Set.Less. The subsets are
+// collected into a slice: u.m.Values() would build a frozen set of them, which
+// compares two subsets of the same Go type with == and panics (e.g. two relations).
+func (u UnionSet) orderedSubsets() []Set {
+	subsets := make([]Set, 0, u.m.Count())
+	for i := u.m.Range(); i.Next(); {
+		subsets = append(subsets, i.Value().(Set))
+	}
+	sort.Slice(subsets, func(i, j int) bool { return subsets[i].Less(subsets[j]) })
+	return subsets
 }
 
 func (u UnionSet) Negate() Value {
